@@ -183,4 +183,38 @@ theorem rsout_exec (cfg : Cfg) (as : List Act) : ∀ s : St, RsOut s →
       rw [countSteps_append, hc2 this]
       simp [countSteps, he1]
 
+/-! ### the mutex is exclusive; the thread's end clears `run_` -/
+
+/-- the controller holds the mutex (between the two stores of `reboot()`) only while the thread does not -/
+def Excl (s : St) : Prop := s.mid = true → s.pc ≠ .blocking
+
+theorem excl_step : ∀ (cfg : Cfg) (s : St) (a : Act), Excl s → Excl (step cfg s a) := by
+  life_bash Excl []
+
+theorem excl_all (cfg : Cfg) (as : List Act) : Excl (runAll cfg as) :=
+  inv_exec cfg (excl_step cfg) as _ (by simp [Excl, St.boot])
+
+/-- once the thread has ended `run_` is false, as long as nobody calls `run()` -/
+def EndOff (s : St) : Prop := s.pc = .done → s.run = false
+
+theorem endoff_step (cfg : Cfg) (s : St) (a : Act) (ha : a ≠ .c .run) (h : EndOff s) : EndOff (step cfg s a) := by
+  obtain ⟨pc, run, reset, td, stp, woken, mid, joined, hist⟩ := s
+  simp only [EndOff] at h
+  cases a with
+  | c x =>
+    cases x <;> simp only [step, ctl] <;> (try split) <;> simp_all [EndOff]
+  | fin => simp only [step, fin]; split <;> simp_all [EndOff]
+  | spur => simp only [step]; split <;> simp_all [EndOff]
+  | t b =>
+    cases pc <;> simp only [step, thr] <;> (repeat' split) <;> simp_all [Option.getD, EndOff]
+
+theorem endoff_exec (cfg : Cfg) (as : List Act) : ∀ s : St, (∀ a ∈ as, a ≠ Act.c Cmd.run) → EndOff s →
+    EndOff (exec cfg s as) := by
+  induction as with
+  | nil => intro s _ h; simpa [exec] using h
+  | cons a as ih =>
+    intro s hn h
+    rw [exec_cons]
+    exact ih _ (fun x hx => hn x (by simp [hx])) (endoff_step cfg s a (hn a (by simp)) h)
+
 end BFL.Life
